@@ -57,6 +57,7 @@ from mc.pool import pmap
 # ------------------------------------------------------------------------------------------------
 RV_POOL = ("t0", "a0", "t1", "a1")          # restricted pools are prefixes of this list
 RV_FPOOL = ("ft0", "fa0", "ft1")
+NEST_POOL = ("t0", "a0", "t1", "a1", "t2", "a2", "t3", "a3", "t4", "a4")   # pools of the loop-nest families
 RV_PRE_LI = "t0"                            # register of the pre-allocated li
 RV_PRE_GET = "a0"                           # register of the pre-allocated get_register
 RV_RESERVED = {"sp", "ra", "gp", "tp", "s0", "fp", "s1", "s2", "s3", "s4", "s5", "s6", "s7", "s8", "s9", "s10", "s11"}
@@ -77,7 +78,7 @@ SEM = {
     "riscv.fadd.s": ("pure", None), "riscv.fcvt.s.w": ("pure", None),
     "rv32.get_register": ("getreg", None), "riscv.get_float_register": ("getreg", None),
     "riscv_func.return": ("sink", None),
-    "riscv_scf.for": ("for", None), "riscv_scf.yield": ("yield", None),
+    "riscv_scf.for": ("for", None), "riscv_scf.yield": ("yield", None), "riscv.comment": ("nop", None),
     "x86.di.mov": ("const", None), "x86.ds.mov": ("copy", None),
     "x86.rs.add": ("pure", 0), "x86.rs.imul": ("pure", 0), "x86.r.inc": ("pure", 0), "x86.ri.add": ("pure", 0),
     "x86.ss.cmp": ("pure", None), "x86.get_register": ("getreg", None),
@@ -164,7 +165,8 @@ class Run:
         self.getreg: dict = {}
         self.sinks: list = []
         self.reads = 0
-        self.fixed_trips = False
+        self.fixed_trips = False       # every loop executed so far had a compile-time trip count
+        self.saw_loop = False
         self.exit_ev = None
         bargs, ops = struct
         self.ev = -1
@@ -231,6 +233,9 @@ class Run:
             self.loop(op)
             return
         terms = [self.read(v, name, n) for n, v in enumerate(operands)]
+        if kind == "nop":
+            self.ev += 1
+            return
         if kind in ("sink", "yield"):
             if kind == "sink":
                 self.sinks.extend(terms)
@@ -285,8 +290,10 @@ class Run:
         # iterations: K, unless the trip count is a compile-time fact (then only that path exists)
         trips = _trip_count(tlb, tub, tstep)
         iters = self.K if trips is None else min(trips, 2)
-        if trips is not None:
-            self.fixed_trips = True
+        if not self.saw_loop:
+            self.saw_loop, self.fixed_trips = True, trips is not None
+        elif trips is None:
+            self.fixed_trips = False
         for n, v in enumerate(inits):
             self.read(v, name, f"iter_arg{n}")
         if self.strict:
@@ -404,27 +411,38 @@ def _struct_sig(struct):
 
 
 def _facts(struct):
-    """uses[vid], defining op name of every value, loop role of every value that takes part in a riscv_scf.for."""
+    """uses[vid], defining op name of every value, loop role of every value that takes part in a riscv_scf.for,
+    flags (duplicate tie / exotic yield), and for every value the smallest loop depth at which it is used."""
     uses: dict = {}
     defop: dict = {}
     role: dict = {}
+    defdepth: dict = {}
+    usedepth: dict = {}
     dup = [False]
     exotic = [False]
 
-    def walk(blk, inbody):
+    def walk(blk, depth):
         bargs, ops = blk
+        for x in bargs:
+            defdepth[x] = depth
         for name, key, operands, results, body in ops:
             for o in operands:
                 uses[o] = uses.get(o, 0) + 1
+                usedepth[o] = min(usedepth.get(o, depth), depth)
             for r in results:
                 defop[r] = name
-                if inbody:
+                defdepth[r] = depth
+                if depth:
                     role.setdefault(r, "for.body")
             if name == "riscv_scf.for":
                 dyn = key == "dyn"
                 inits = operands[3:] if dyn else operands[2:]
                 for o in operands[: 3 if dyn else 2]:
-                    role.setdefault(o, "for.bound")
+                    if depth and defdepth.get(o) == 0 and role.get(o) != "for.init":
+                        # operand of an inner loop op that is defined outside the whole nest
+                        role[o] = "nest.inner-loop-bound-defined-outside-the-nest"
+                    else:
+                        role.setdefault(o, "for.bound")
                 for o in inits:
                     role[o] = "for.init"
                 role[body[0][0]] = "for.iv"
@@ -440,12 +458,12 @@ def _facts(struct):
                     if y != c and y not in inbody_results:
                         exotic[0] = True        # yields a value from outside the body or the induction variable
             if body is not None:
-                walk(body, True)
+                walk(body, depth + 1)
 
-    for a in struct[0]:
-        defop[a] = "arg"
-    walk(struct, False)
-    return uses, defop, role, dup[0], exotic[0]
+    for x in struct[0]:
+        defop[x] = "arg"
+    walk(struct, 0)
+    return uses, defop, role, dup[0], exotic[0], usedepth
 
 
 def judge(target, strategy, s_before, regs_before, s_after, regs_after, allowed, infinite, reserved, zero):
@@ -456,7 +474,7 @@ def judge(target, strategy, s_before, regs_before, s_after, regs_after, allowed,
     pre = [r is not None for r in regs_before]
     if not same:
         pre = [False] * len(regs_after)
-    uses, defop, role, _, exotic = _facts(s_after)
+    uses, defop, role, _, exotic, usedepth = _facts(s_after)
     has_for = _has_for(s_after)
     Ks = (0, 1, 2) if has_for else (0,)
     pre_regs = {r for r in regs_before if r not in (None, "?")}
@@ -475,9 +493,16 @@ def judge(target, strategy, s_before, regs_before, s_after, regs_after, allowed,
         if reg in dead_get:
             return "register-of-unused-get_register"
         if reg in pre_regs:
+            used = [h for h in holders.get(reg, ()) if uses.get(h)]
+            if used and all(usedepth.get(h, 0) >= 1 for h in used):
+                return "preallocated-register-used-only-in-loop-body"
             return "preallocated-register-reused"
         if has_for:
-            return "loop|" + ("yielded-value-not-defined-in-body" if exotic else loopclass)
+            if exotic:
+                return "loop|yielded-value-not-defined-in-body"
+            if "nest." in loopclass:
+                return "nest|" + loopclass.replace("nest.", "")
+            return "loop|" + loopclass
         return None
 
     # ---- (2) registers handed out
@@ -648,24 +673,28 @@ def build_riscv(prog):
             o = riscv.FMVOp(vals[op[1]], rd=FU)
         elif k == "fadd":
             o = riscv.FAddSOp(vals[op[1]], vals[op[2]], rd=FU)
+        elif k == "comment":
+            o = riscv.CommentOp("unknown effects")
         elif k == "for":
+            # value ids: iv, carried value (a placeholder when init is None), body values, result (or placeholder)
             _, lb, ub, step, init, body = op
             bops, yld = body
-            bblk = Block(arg_types=[U, U])
-            inner = list(vals) + list(bblk.args)
+            carried = init is not None
+            bblk = Block(arg_types=[U, U] if carried else [U])
+            inner = list(vals) + [bblk.args[0], bblk.args[1] if carried else None]
             bout = []
             for b in bops:
                 emit(b, inner, bout)
-            bout.append(riscv_scf.YieldOp(inner[yld]))
+            bout.append(riscv_scf.YieldOp(inner[yld]) if carried else riscv_scf.YieldOp())
             bblk.add_ops(bout)
             stepv = builtin.IntegerAttr(1, riscv.si12) if step is None else vals[step]
-            o = riscv_scf.ForOp(vals[lb], vals[ub], stepv, [vals[init]], Region(bblk))
+            o = riscv_scf.ForOp(vals[lb], vals[ub], stepv, [vals[init]] if carried else [], Region(bblk))
         else:
             raise ValueError(k)
         out.append(o)
         if k == "for":
             vals.extend(inner[len(vals):])      # ids of iv, carried value and body results (never wired outside)
-        vals.append(o.results[0])
+        vals.append(o.results[0] if o.results else None)
 
     out = []
     for op in ops:
@@ -741,7 +770,7 @@ def allocate(target, mode, module, fn):
             if arg == "force_infinite":
                 return set(), True
             return RV_DEFAULT, arg == "allow_infinite"
-        names = RV_POOL[:arg]
+        names = NEST_POOL[:arg] if kind == "npool" else RV_POOL[:arg]
         fnames = RV_FPOOL[: max(1, arg - 1)]
         regs = [IntRegisterType.from_name(n) for n in reversed(names)] + [
             FloatRegisterType.from_name(n) for n in reversed(fnames)]
@@ -931,6 +960,80 @@ def rv_for_choices(info, cfg):
                 yield ("for", lb, ub, step, init, body), ("i", True), 2 + len(body[0])
 
 
+def nest_programs(cfg):
+    """Depth-2 loop nests.  Function arguments a, b (outer bounds) and c (, d) which nothing but the inner loop op
+    may use; outer body = `npre` temporaries (addi chain from the outer induction variable), the inner loop,
+    `npost` temporaries; the inner loop's lb / ub (distinct), step (static or a value) and iter_arg init (none or a
+    value) range over the arguments, the outer induction variable and the temporaries defined before it."""
+    nargs = cfg["nest_args"]
+    args = ("u",) * nargs
+    a, b = 0, 1
+    for npre in cfg["nest_pre"]:
+        iv_o = nargs
+        cur = nargs + 2                      # iv, (placeholder for the carried value)
+        pre, pre_ids = [], []
+        for j in range(npre):
+            pre.append(("addi", iv_o if j == 0 else pre_ids[-1]))
+            pre_ids.append(cur)
+            cur += 1
+        S = list(range(nargs)) + [iv_o] + pre_ids
+        steps = [None] + [x for x in S if x >= 2 and (x < nargs or x == iv_o)]
+        inits = [None] + [x for x in S if x == 2 or x == iv_o or (pre_ids and x == pre_ids[-1])]
+        iv_i, car_i, bres = cur, cur + 1, cur + 2
+        after = cur + 4                      # ids after the inner loop (its result or placeholder is cur + 3)
+        posts = [()]
+        for first in (("li", 5, None), ("addi", iv_o)):
+            if 1 in cfg["nest_post"]:
+                posts.append((first,))
+            if 2 in cfg["nest_post"]:
+                posts.append((first, ("addi", after)))
+        if 0 not in cfg["nest_post"]:
+            posts = posts[1:]
+        for lb in S:
+            for ub in S:
+                if lb == ub:
+                    continue
+                for step in steps:
+                    for init in inits:
+                        if init is None:
+                            ibody = ((("addi", iv_i),), None)
+                        else:
+                            ibody = ((("addi", car_i),), bres)
+                        inner = ("for", lb, ub, step, init, ibody)
+                        for post in posts:
+                            outer = ("for", a, b, None, None, (tuple(pre) + (inner,) + post, None))
+                            yield (args, (outer,), ())
+
+
+def prenest_programs(cfg):
+    """Pre-allocated values (function arguments in ABI registers, or results of top-level get_register ops) that are
+    read inside a loop body (depth 1 or 2), with or without a top-level use, with or without an op of unknown memory
+    effects (riscv.comment) in a body, and k values that are live across the loop (unallocated get_register results,
+    all returned)."""
+    for pre in cfg["pre_args"]:
+        npre = len(pre)
+        for source in ("arg", "get_register"):
+            args = (pre if source == "arg" else ()) + ("u", "u")
+            lo, hi = len(args) - 2, len(args) - 1
+            head = () if source == "arg" else tuple(("getreg", r) for r in pre)
+            pv = list(range(npre)) if source == "arg" else list(range(2, 2 + npre))     # ids of the pre-allocated
+            base = len(args) + len(head)
+            for tops in itertools.product((False, True), repeat=npre):       # also a top-level use?
+                for depth in (1, 2):
+                    for comment in (("none", "with-use") if depth == 1 else ("none", "with-use", "outer-body")):
+                        for k in cfg["pressure"]:
+                            ops = list(head) + [("getreg", None)] * k
+                            live = list(range(base, base + k))
+                            ops += [("mv", v) for v, t in zip(pv, tops) if t]
+                            uses = tuple(("addi", v) for v in pv)
+                            ibody = uses + ((("comment",),) if comment == "with-use" else ())
+                            loop = ("for", lo, hi, None, None, (ibody, None))
+                            if depth == 2:
+                                obody = ((("comment",),) if comment == "outer-body" else ()) + (loop,)
+                                loop = ("for", lo, hi, None, None, (obody, None))
+                            yield (args, tuple(ops) + (loop,), tuple(live))
+
+
 def rets(info, cfg):
     """Return-operand choices: every subset of size <= cfg['ret_max'] (increasing index order)."""
     n = len(info)
@@ -978,7 +1081,7 @@ def rv_programs(cfg, args, first=None):
 
 def rv_in_space(cfg, args, ops, ret):
     """Is this (loop free) program enumerated by configuration cfg?"""
-    if cfg["target"] != "riscv" or args not in cfg["args"]:
+    if cfg["target"] != "riscv" or cfg.get("family") or args not in cfg["args"]:
         return False
     if not (cfg["min_nops"] <= len(ops) <= cfg["nops"]) or len(ret) > cfg["ret_max"]:
         return False
@@ -1042,7 +1145,23 @@ def _shard(task) -> Stats:
     name, cfg = cfgs[ci]
     n = 0
     idx = -1
-    if cfg["target"] == "riscv":
+    if cfg.get("family"):
+        gen = nest_programs(cfg) if cfg["family"] == "nest" else prenest_programs(cfg)
+        for prog in gen:
+            idx += 1
+            if idx % parts != part:
+                continue
+            st.transitions += 1
+            st.states += 1
+            nontrivial = False
+            for mode in cfg["modes"]:
+                if check_case(st, "riscv", prog, mode) == "allocated:registers-reused":
+                    nontrivial = True
+            if nontrivial:
+                st.nontrivial += 1
+            if (idx + seed) % 5003 == 0:
+                st.sample({"target": "riscv", "prog": prog})
+    elif cfg["target"] == "riscv":
         for ops, info in rv_programs(cfg, args, first):
             idx += 1
             if idx % parts != part:      # the subtree of one first op is dealt round-robin to `parts` tasks
@@ -1201,6 +1320,12 @@ def configs(quick: bool):
                             for_steps="static-or-last", for_body_ops=("addi", "add"), for_body2="carried-only", parts=8)),
             ("rv-for-u", dict(rv, args=(("u",),), alphabet=("li5", "mv", "add"), nops=2, **{"for": True},
                               for_steps="static-or-last", for_body_ops=("addi", "add"), for_body2="carried-only", parts=3)),
+            ("rv-nest", dict(rv, family="nest", args=(), nops=9, **{"for": True}, nest_args=3, nest_pre=(0, 1, 2),
+                             nest_post=(0, 1, 2), parts=16,
+                             modes=(("npool", 5), ("npool", 6), ("npool", 8), ("pass", "default")))),
+            ("rv-prenest", dict(rv, family="prenest", args=(), nops=9, **{"for": True},
+                                pre_args=(("a0",), ("a1",), ("a0", "a1")), pressure=(0, 1, 2, 3, 4, 5), parts=4,
+                                modes=(("npool", 4), ("npool", 6), ("npool", 8), ("npool", 10)))),
             ("x86", dict(x86, args=((), ("u",), ("rdi",), ("rdi", "rsi")), nops=3, nops_by_args={(): 4},
                          x86_addi=False, modes=(("pool", 2), ("pool", 3), ("pass", "default")), parts=2)),
         ]
@@ -1220,6 +1345,15 @@ def configs(quick: bool):
                              "parts": 16})),
         ("rv-for-u3", dict(rv, args=(("u",),), alphabet=("li5", "mv", "add"), nops=3, min_nops=3,
                            **{"for": True, "for_li": True, "for_steps": "static-or-last", "parts": 24})),
+        ("rv-nest", dict(rv, family="nest", args=(), nops=9, **{"for": True}, nest_args=4, nest_pre=(0, 1, 2),
+                         nest_post=(0, 1, 2), parts=48,
+                         modes=(("npool", 5), ("npool", 6), ("npool", 7), ("npool", 8), ("npool", 10),
+                                ("pass", "default")))),
+        ("rv-prenest", dict(rv, family="prenest", args=(), nops=9, **{"for": True},
+                            pre_args=(("a0",), ("a1",), ("a0", "a1"), ("a1", "a0")),
+                            pressure=(0, 1, 2, 3, 4, 5, 6, 7), parts=8,
+                            modes=(("npool", 3), ("npool", 4), ("npool", 5), ("npool", 6), ("npool", 7),
+                                   ("npool", 8), ("npool", 9), ("npool", 10), ("pass", "default")))),
         ("x86", dict(x86, args=ARGS_X86, nops=3, nops_by_args={(): 4, ("u",): 4, ("rdi",): 4}, parts=6)),
     ]
 
@@ -1227,6 +1361,10 @@ def configs(quick: bool):
 def make_tasks(ctx):
     tasks = []
     for ci, (name, cfg) in enumerate(configs(ctx.quick)):
+        if cfg.get("family"):
+            for part in range(cfg["parts"]):
+                tasks.append((ctx.quick, ci, (), None, part, cfg["parts"], ctx.seed))
+            continue
         for args in cfg["args"]:
             if cfg["target"] == "x86":
                 firsts = list(x86_choices([True] * len(args), cfg))
